@@ -676,6 +676,7 @@ package raft
 //@   let X = request.LastIncludedIndex
 //@   let T = request.LastIncludedTerm
 //@   assume [A-ES] request.Term == r.currentTerm ==> r.state != Leader
+//@   assume [A-LM] request.Term >= r.currentTerm && X <= r.commitIndex && inLog(X) ==> Lterm[X] == T
 //@   ensures [IS.shutdown] err != nil ==> Llast == old(Llast) && Lfirst == old(Lfirst) && r.commitIndex == old(r.commitIndex) && r.lastApplied == old(r.lastApplied) && r.currentTerm == old(r.currentTerm) && r.votedFor == old(r.votedFor)
 //@   ensures [IS.stale-term] err == nil && request.Term < entry(r.currentTerm) && old(r.state) != Shutdown ==> response.Term >= request.Term
 //@   at call r.snapshotStorage.NewSnapshotFile assert [IS.something-new] X > r.lastIncludedIndex && X > r.lastApplied && request.Term >= r.currentTerm
